@@ -216,6 +216,22 @@ def apply_undo_bracket(o, ap, un, atoms):
 def r3_annotation(ctx):
     rule = 'C06.R3-effect-annotation'
     facts = ctx.facts
+    # who is classified = f(colour argument of the list-level routine) o g(what the public entry passes for it): must be opposite(mover),
+    # wherever the `.opposite()` is written
+    n3_ = MG + '::generate_moves_and_lazily_update_chess_move_effects'
+    n2_ = MG + '::lazily_update_chess_move_effect_for_checks_and_checkmates'
+    passed = set()
+    for o in Engine(facts, opaque={n2_, GEN}).run(n3_):
+        for e in o.events:
+            if e[0] == 'call' and e[1] == n2_:
+                passed.add(e[2][3])
+    OPP_OF = lambda t: ('call', OPP, (t,), None)
+    if passed == {('p', 3)}:
+        want_players = {OPP_OF(('p', 4))}          # entry passes the mover: the routine itself must take the opposite
+    elif passed == {OPP_OF(('p', 3))}:
+        want_players = {('p', 4)}                  # entry already passes the opponent
+    else:
+        want_players = None
     # analysed from the routine that annotates a whole list; a private per-move helper (if any) is inlined, a for_each closure is
     # interpreted as the loop body
     n2 = MG + '::lazily_update_chess_move_effect_for_checks_and_checkmates'
@@ -255,7 +271,8 @@ def r3_annotation(ctx):
                expected='classification between apply and undo of the same move',
                why='a move is annotated according to the position it produces')
         ctx.ob(rule, name, 'path(mate=%s,check=%s): classified player is the opponent of the mover on the caller\'s board' % key,
-               players == {('call', OPP, (('p', 4),), None)} and boards == {('ref', ('der', ('p', 3)))}, found=[show(p_) for p_ in players], expected='opposite(player)',
+               want_players is not None and players == want_players and boards == {('ref', ('der', ('p', 3)))},
+               found={'classified': [show(p_) for p_ in players], 'entry passes': [show(p_) for p_ in passed]}, expected='opposite(mover)',
                why='the side that may be in check after a move is the opponent of the mover')
     oracle = {(1, None): 'Checkmate', (0, 1): 'Check', (0, 0): 'None'}
     for k, want in oracle.items():
@@ -290,7 +307,7 @@ def r3_annotation(ctx):
     for o in outs:
         ev = [e for e in o.events if e[0] == 'call']
         if [e[1] for e in ev] == [GEN, n2]:
-            okc = ev[0][2][2] == ('p', 3) and ev[1][2][3] == ('p', 3) and ev[1][2][2] == ev[0][2][1]
+            okc = ev[0][2][2] == ('p', 3) and ev[1][2][3] in (('p', 3), ('call', OPP, (('p', 3),), None)) and ev[1][2][2] == ev[0][2][1]
     ctx.ob(rule, n3, 'annotates the list generated for the same player and board', okc, expected='generate_moves(board, player); update(moves, board, player)')
 
 
